@@ -73,7 +73,7 @@ CHECKS = {
              "Generated 1-4-D arrays with 1-3-D labels, every non-empty axis subset in any order and sign, uneven missing labels: "
              "each kept index equals the 1-D reduction of its slice; shape = batch + kept dims + group axis; chunked along any axis.",
              "arg-reductions with a single reduced axis only.", "§4 C08"),
-    "C09": C("Exhaustive small-scope enumeration of find_group_cohorts + Hypothesis; graph dependency closures; base-3 provenance sums",
+    "C09": C("Exhaustive small-scope enumeration of find_group_cohorts + Hypothesis (+ atheris coverage-guided fuzzing in the thorough tier); graph dependency closures; base-3 provenance sums",
              "The planner is run on every canonical code array up to length 6 (7 thorough) x every chunk composition x merge x "
              "expected variants and all small 2-D arrays, against a validity predicate (partition, block coverage, blockwise "
              "only if confined); graphs of every strategy are checked for dependency closure per output chunk; provenance sums "
@@ -94,7 +94,7 @@ CHECKS = {
              "superset, every strategy: ascending & duplicate-free when sorted, expected / first-appearance order otherwise, "
              "and the label->value pairing always equals the reference mapping.",
              "Chunked calls without expected_groups and sort=False are held to the mapping only.", "§4 C16"),
-    "C17": C("Hypothesis + exhaustive small scope postcondition checks on rechunk helpers and method='blockwise'",
+    "C17": C("Hypothesis + exhaustive small scope (+ atheris coverage-guided fuzzing in the thorough tier): postcondition checks on rechunk helpers, call sequences and method='blockwise'",
              "Generated label sequences (sequential / periodic / irregular), chunkings, chunksize hints, forced-label sets, array / "
              "DataArray / Dataset flavours: values, shape, dtype kept, chunks positive and complete, other axes untouched, input "
              "unmodified, no straddling group (blockwise), forced labels start chunks and old borders kept (cohorts), "
